@@ -138,9 +138,11 @@ func c04ProbeOverrun(r *hx.Result) {
 	r.Fail(c04SigGetBtwHL, desc, c04Replay{Kind: "probe-overrun", Detail: "store.Open(MultiIndexing); InitIndexing({r,r}); 3x Set(rA), 3x Set(rB) (one tx each); FlushIndexes(0,false); GetBetween(rB,1,3)"})
 }
 
-// which variant of the code is /repo running?  Three tiny deterministic scenarios; the answers select the
-// variant of the Lean model the driver executes (`c04 quirks`), so the correspondence is exact before and
-// after each repair.  (The defects themselves are reported by the probes/oracles, not here.)
+// which variant of the code is /repo running?  Three tiny deterministic scenarios of defects that were repaired
+// (lookup at the bulk start, tombstone without the deleted flag, Snapshot.History revisions).  The answers are
+// told to the Lean driver (`c04 quirks`), whose model has the repaired code only: a returning defect shows up as
+// `unsupported-variant` mismatches AND as oracle failures under its old signature (the defects themselves are
+// reported by the probes/oracles, not here).
 type c04Quirks struct {
 	LookupAtBulkStart bool // injective branch looks the previous row version up as of the first tx of the bulk
 	TombKeepsPrevMd   bool // tombstone of the previous mapped key keeps the (read-only) metadata, no deleted flag
@@ -302,6 +304,7 @@ func c04ProbeKvsOverflow(r *hx.Result) {
 	so := string(out)
 	if strings.Contains(so, "index out of range") && strings.Contains(so, "indexer.go") {
 		r.Extra["kvs_overflow_panic_present"] = true
+		c04KvsPanicPresent = true
 		line := ""
 		for _, l := range strings.Split(so, "\n") {
 			if strings.Contains(l, "panic:") {
@@ -318,8 +321,13 @@ func c04ProbeKvsOverflow(r *hx.Result) {
 		r.Fail("C04:harness:child", "kvs-overflow child: "+so, nil)
 		return
 	}
-	r.Corr("c04 index owned 1", "ok 2,2")
+	// the model with the bounded buffer of the code: kvsLen(MaxTxEntries=4, MaxBulkSize=1) = 8 slots
+	r.Corr("c04 index owned 1 8", "ok 2,2")
 }
+
+// set by c04ProbeKvsOverflow: the tree under test still has the short idx._kvs (the generator then keeps the
+// transactions of injective layouts below MaxTxEntries/2 so that the harness process survives)
+var c04KvsPanicPresent = false
 
 func ent(k, v string) c04Ent { return c04Ent{Key: []byte(k), Val: []byte(v)} }
 
@@ -351,7 +359,8 @@ func c04ScriptedProbes(r *hx.Result, rng *hx.Rng, f1 bool) {
 	})
 }
 
-var c04Q = c04Quirks{LookupAtBulkStart: true, TombKeepsPrevMd: true, SnapHistCountsDown: true}
+// variant observed by c04DetectQuirks (all false = the repaired code, the only variant the Lean model has)
+var c04Q = c04Quirks{}
 
 func runC04(r *hx.Result, rng *hx.Rng, thorough bool, replay string) error {
 	if os.Getenv("C04_CHILD") == "kvs-overflow" {
@@ -368,11 +377,11 @@ func runC04(r *hx.Result, rng *hx.Rng, thorough bool, replay string) error {
 		return fmt.Errorf("quirk detection: %w", err)
 	}
 	c04Q = q
+	c04ProbeKvsOverflow(r)
 	if replay != "" {
 		return c04Replay1(r, replay, thorough, f1)
 	}
 	c04ProbeOverrun(r)
-	c04ProbeKvsOverflow(r)
 	c04ScriptedProbes(r, rng.Fork(), f1)
 	if err := r.Flush(); err != nil {
 		return err
